@@ -47,10 +47,11 @@ RULES = {
                 'dependence through every numpy operation of the pipeline) only on input element c and on the extra '
                 'call arguments; the only whole-array predicates steering control flow are the tabled exceptions',
     'R-SHAPE': 'the derivative (and every full_output field) has the shape of x, for x of rank 0..3',
-    'R-ARGMIN': 'selection of the best estimate per element (the function whose result indexes the flattened tables): run on '
-                'concrete tables with one all-NaN column and one column holding two numbers and a NaN, it returns for the second '
-                'column the flat index of the smaller number - an invalid estimate of one element is never selected because '
-                'another element has none, however the selection is implemented',
+    'R-ARGMIN': 'selection of the best estimate per element (the function whose result indexes the flattened tables, or that '
+                'applies an arg-min kernel, and that names the smallest entry of each column of a table of numbers by flat index '
+                'or by row): run on concrete tables with one all-NaN column and one column holding two numbers and a NaN, it names '
+                'the smaller number of the second column in the same way - an invalid estimate of one element is never selected '
+                'because another element has none, however the selection is implemented',
     'R-FORWARD': 'every evaluation of the user function receives the *args and **kwds of the call unchanged',
 }
 
@@ -66,8 +67,6 @@ def run(ctx):
     for rid, text in RULES.items():
         rep.rule(rid, text, {'R-COLSEP': 12, 'R-SHAPE': 12, 'R-FORWARD': 12, 'R-ARGMIN': 6}[rid])
     core = ctx.repo.module('core')
-    SELECTION_ROLE.clear()
-    SELECTION_ROLE.update(c[0] for c in selection_function(ctx.repo.module('limits')))
     shapes = [(), (1,), (3,), (2, 2), 'T(3, 2)'] if ctx.tier == 'quick' else [(), (1,), (3,), (2, 2), (2, 1, 2), (1, 3), 'T(3, 2)', 'T(2, 2)']
     configs = [('central', 1, 2), ('central', 2, 2), ('forward', 1, 2), ('backward', 2, 3), ('complex', 1, 2),
                ('complex', 3, 2), ('multicomplex', 1, 2), ('multicomplex', 2, 2), ('central', 0, 2)]
@@ -92,10 +91,12 @@ def run(ctx):
 
 
 def selection_function(lim):
-    """The stage that selects the best estimate, found by its role and not by its name or by the kernels it uses: the
-    function of limits.py whose result indexes the flattened tables (`table.flat[result]`) in the function that calls it.
-    -> [(qualname, FunctionDef, ClassInfo or None)]"""
+    """The stage that selects the best estimate, found by what it does and not by its name.  Two exact descriptions, either
+    of which may apply to a given tree: (a) its result indexes the flattened tables in the function that calls it
+    (`table.flat[result]`, `np.take(table, result)`); (b) it applies an arg-min kernel of numpy to its argument.
+    -> [(qualname, FunctionDef, ClassInfo or None)], every function that fits one of the descriptions"""
     import ast
+    from ..srcmodel import functions_calling
     members = {}
     for name, node in lim.funcs.items():
         members.setdefault(name, []).append(('%s.%s' % (lim.name, name), node, None))
@@ -117,10 +118,18 @@ def selection_function(lim):
                 if callee in members:
                     made_by[sub.targets[0].id] = callee
         for sub in ast.walk(node):
+            used = None
             if isinstance(sub, ast.Subscript) and isinstance(sub.value, ast.Attribute) and sub.value.attr == 'flat' and \
-                    isinstance(sub.slice, ast.Name) and sub.slice.id in made_by:
-                for cand in members[made_by[sub.slice.id]]:
+                    isinstance(sub.slice, ast.Name):
+                used = sub.slice.id
+            elif isinstance(sub, ast.Call) and isinstance(sub.func, ast.Attribute) and sub.func.attr == 'take' and \
+                    len(sub.args) == 2 and isinstance(sub.args[1], ast.Name):
+                used = sub.args[1].id
+            if used in made_by:
+                for cand in members[made_by[used]]:
                     found[cand[0]] = cand
+    for cand in functions_calling(lim, ('nanargmin', 'argmin')):
+        found.setdefault(cand[0], cand)
     return sorted(found.values(), key=lambda c: c[0])
 
 
@@ -192,9 +201,13 @@ def _concrete_kernel(name):
         return best if arg else col[best]
 
     def hook(models, a, axis=None, **kw):
-        if kw.get('out') is not None or kw.get('keepdims'):
-            raise AnalysisError('np.%s with out= / keepdims' % name)
-        return models._reduce(a, axis, fn, name)
+        if kw.get('keepdims'):
+            raise AnalysisError('np.%s with keepdims' % name)
+        res = models._reduce(a, axis, fn, name)
+        if kw.get('out') is not None:
+            models.np_copyto(kw['out'], res)
+            return kw['out']
+        return res
     return hook
 
 
@@ -205,41 +218,62 @@ def argmin_table(ctx):
     rep = ctx.rep
     lim = ctx.repo.module('limits')
     cands = selection_function(lim)
-    if len(cands) != 1:
-        raise AnalysisError('anchor vanished: the function of limits.py whose result selects the best estimates out of the '
-                            'flattened tables (candidates: %s)' % [c[0] for c in cands])
-    qual, node, owner = cands[0]
-    where = lim.where(node)
     hooks = {'np.' + nm: _concrete_kernel(nm) for nm in ('nanargmin', 'nanargmax', 'argmin', 'argmax', 'nanmin', 'nanmax',
                                                          'min', 'max', 'amin', 'amax')}
     nan = NaNC()
-    # column 0 has no valid estimate; column 1 has two and one NaN - in every position, with the smaller one above and below
-    for col in ([nan, 5, 2], [nan, 2, 5], [7, nan, 2], [2, nan, 7], [5, 2, nan], [2, 5, nan]):
-        label = 'table with an all-NaN column and the column %r' % (col,)
+
+    def run_on(node, owner, col):
         models = Models(hooks=hooks)
         I = Interp(ctx.repo, models)
         models.bind(I)
-        table = Arr((3, 2), [nan, col[0], nan, col[1], nan, col[2]])
-        want = min((r for r in range(3) if col[r] is not nan), key=lambda r: col[r]) * 2 + 1
-        try:
-            out = I.closure_for(lim, node, owner)(table)
-        except InterpRaise as exc:
-            rep.violation('R-ARGMIN', qual, where, {'raises': exc.exc_name, 'message': exc.msg[:100]},
-                          'a selection', label, key='argmin raises')
-            continue
-        except AnalysisError as exc:
-            rep.undecided('R-ARGMIN', qual, exc, label)
-            continue
-        got = None
+        first = [nan, nan, nan] if col is not None else [4, 9, 6]
+        col = col if col is not None else [5, 2, 7]
+        out = I.closure_for(lim, node, owner)(Arr((3, 2), [first[0], col[0], first[1], col[1], first[2], col[2]]))
         if isinstance(out, Arr) and out.shape == (2,):
-            got = ndarr.concrete_real(out[1])
-        rep.check(got is not None and got == want, 'R-ARGMIN', qual, where,
-                  {'returned': repr(out), 'flat_index_of_the_smallest_valid_estimate': want},
-                  'the flat index of the smallest estimate that is not NaN', label, key='argmin table')
+            return ndarr.concrete_real(out[1]), out
+        return None, out
+
+    judged = 0
+    for qual, node, owner in cands:
+        where = lim.where(node)
+        # what the function returns for a table of numbers only tells how it names a row of a column: by the flat index into
+        # the table or by the row; a function that does neither is not the selection (it only shares a kernel with it)
+        try:
+            plain, _ = run_on(node, owner, None)
+        except (InterpRaise, AnalysisError):
+            continue
+        if plain == 1 * 2 + 1:
+            name_of = lambda r: r * 2 + 1
+        elif plain == 1:
+            name_of = lambda r: r
+        else:
+            continue
+        judged += 1
+        # column 0 has no valid estimate; column 1 has two and one NaN - in every position, with the smaller one above and below
+        for col in ([nan, 5, 2], [nan, 2, 5], [7, nan, 2], [2, nan, 7], [5, 2, nan], [2, 5, nan]):
+            label = 'table with an all-NaN column and the column %r' % (col,)
+            want = name_of(min((r for r in range(3) if col[r] is not nan), key=lambda r: col[r]))
+            try:
+                got, out = run_on(node, owner, col)
+            except InterpRaise as exc:
+                rep.violation('R-ARGMIN', qual, where, {'raises': exc.exc_name, 'message': exc.msg[:100]},
+                              'a selection', label, key='argmin raises')
+                continue
+            except AnalysisError as exc:
+                rep.undecided('R-ARGMIN', qual, exc, label)
+                continue
+            rep.check(got is not None and got == want, 'R-ARGMIN', qual, where,
+                      {'returned': repr(out), 'smallest_valid_estimate_is_named': want},
+                      'the smallest estimate that is not NaN, named as in a table without NaN', label, key='argmin table')
+    if not judged:
+        raise AnalysisError('anchor vanished: no function of limits.py selects the smallest entry of each column of a table of '
+                            'numbers (candidates: %s)' % [c[0] for c in cands])
 
 
 def one(ctx, core, shape, method, n, order, full_output, rule_as=None, tuple_arg=False):
     rep = ctx.rep
+    SELECTION_ROLE.clear()
+    SELECTION_ROLE.update(c[0] for c in selection_function(ctx.repo.module('limits')))
     rid = (lambda r: rule_as) if rule_as else (lambda r: r)       # another property's check may file the results under its own rule
     transposed = isinstance(shape, str)
     if transposed:
